@@ -1011,12 +1011,7 @@ def post(tier, col):
     if S.get("fresh") is None or S.get("shipped") is None or len(S.get("gram", {})) < 2:
         col.extra["fuzz_campaigns"] = "skipped: a side did not load"
         return
-    try:
-        importlib.util.find_spec("atheris") or sys.path.append(os.path.join(core.ROOT, ".deps"))
-        if importlib.util.find_spec("atheris") is None:
-            raise ImportError("atheris")
-    except ImportError:
-        raise RuntimeError("INCONCLUSIVE: atheris is not importable (PYTHONPATH=/verif/.deps); the coverage-guided part of C16 cannot run")
+    # (a missing atheris makes the child exit non-zero -> RuntimeError below -> exit 2, never a violation)
     plan = _campaign_plan(tier, core.seed_value())
     col.samples = col.samples[:8]
     col.max_samples = 12
